@@ -1,2 +1,8 @@
 """Claims per property (kept next to the registry so MANIFEST.json can be regenerated)."""
 from .registry import claim  # noqa: F401
+
+claim("C01", "proof",
+      "contract-based deductive verification: z3 VCs from the AST of the real functions against sidecar contracts",
+      "T1 (proved for all integers of every width): bitmask normalisation, lowest-bit, triviality/compatibility/nesting predicates. T2 (bounded).",
+      "bit masks modelled exactly as sets of naturals; sidecar types; see evidence.assumptions",
+      "DESIGN.md section 5 C01")
